@@ -63,6 +63,26 @@ def all_children_rendered_with(ex):
     return z3.And(ex.b(ex.truth(ex.eq(it[0][1]["tight"], want))), ex.b(ex.truth(ex.eq(it[0][1]["child"], child))))
 
 
+def item_marker_and_indent(ex):
+    """C01 (nesting and numbering kept): item i is rendered with the first-line prefix extended by exactly its own marker
+    ('<start+i>. ' or '<bullet> ') and the continuation prefix extended by an indent exactly as wide as that marker, so the
+    item's further blocks and wrapped lines stay inside the item"""
+    it = [e for e in ex.log[ex.iter_log_start:] if e[0] == "RENDER"]
+    if len(it) != 1:
+        return False
+    env, at = ex.envs[0], it[0][1]
+    p0 = ex.iter_envs[0]["self"].fields["_prefix"]
+    s0 = ex.iter_envs[0]["self"].fields["_second_prefix"]
+    el = env["element"]
+    i = ex.z(env["_i"]) - 1
+    num = ex.to_str(ex.wrap(i + ex.z(ex.unit.ref_attr(ex, el, "start")), "int"))
+    marker = ex.ite(ex.truth(ex.unit.ref_attr(ex, el, "ordered")), ex.concat([num, ". "]),
+                    ex.concat([ex.unit.ref_attr(ex, el, "bullet"), " "]))
+    th = ex.th
+    width = th.length(ex.z(at["second"])) - th.length(ex.z(s0)) == th.length(ex.z(marker))
+    return z3.And(ex.b(ex.truth(ex.eq(at["prefix"], ex.concat([p0, marker])))), width)
+
+
 contract(Contract(
     target=M + ":MarkdownNormalizer.render_list",
     props=["C10"],
@@ -79,10 +99,13 @@ contract(Contract(
         "self.render": render_child("RENDER"),
     },
     defs=L_DEFS,
+    # assumed contract of Marko's List (dependency, unchecked): a bullet is one of the single characters - + *
+    requires={"marko_bullet_is_one_char": "len(element.bullet) == 1"},
     loops={0: Loop(inv={"tight": "self._current_list_tight == want_tight()",
                         "second": "self._second_prefix == old(self._second_prefix)",
                         "mode": "self._list_spacing == old(self._list_spacing)"},
-                   body_ensures={"item": Clause(all_children_rendered_with)},
+                   body_ensures={"item": Clause(all_children_rendered_with, props=["C10"]),
+                                 "marker_and_indent": Clause(item_marker_and_indent, props=["C01"])},
                    decreases="len(element.children) - _i")},
     ensures={
         # a nested list cannot leak its mode: the enclosing list's tightness is back in force on exit
@@ -94,6 +117,9 @@ contract(Contract(
         ("        self._current_list_tight = old_tight\n", "", None, ["post[tight_restored"]),
         ("if self._list_spacing == ListSpacing.preserve:", "if self._list_spacing == ListSpacing.loose:", None, ["inv-init"]),
         ("            is_tight = False\n", "            is_tight = element.tight\n", None, ["inv-init"]),
+        ('subsequent_indent = " " * (len(str(num)) + 2)', 'subsequent_indent = " " * (len(str(element.start)) + 2)', ["C01"], ["marker_and_indent"]),
+        ('prefix = f"{num}. "', 'prefix = f"{element.start}. "', ["C01"], ["marker_and_indent"]),
+        ('subsequent_indent = "  "', 'subsequent_indent = " "', ["C01"], ["marker_and_indent"]),
     ],
 ))
 
